@@ -6,7 +6,9 @@ import vlib
 
 
 def bounds():
-    b = [dict(Fns='{"sha2-256"}', Datas='{"d0", "d1", "d2"}', MaxOps=8)]
+    b = [dict(Fns='{"sha2-256"}', Datas='{"d0", "d1", "d2"}', MaxOps=8),
+         # identity-hashed blocks whose digests share bucket and stored prefix: an absent CID reaches another block's entry
+         dict(Fns='{"identity"}', Datas='{"d4", "d5"}', MaxOps=8)]
     if vlib.tier() == "thorough":
         b.append(dict(Fns='{"sha2-256", "blake2b-256"}', Datas='{"d0", "d1"}', MaxOps=8))
         b.append(dict(Fns='{"sha2-512"}', Datas='{"d0", "d2", "d3"}', MaxOps=8))
@@ -24,6 +26,10 @@ def random_scenarios(rng, n, depth):
     for _ in range(n):
         fns = rng.sample(["sha2-256", "sha2-512", "blake2b-256", "sha3-256"], rng.choice([1, 2, 3]))
         datas = rng.sample(["d0", "d1", "d2", "d3"], rng.choice([2, 3, 4]))
+        if rng.random() < 0.4:      # prefix-sharing identity digests
+            # (only with blocks of >= 9 bytes: the store refuses digests shorter than 4 bytes by contract, ErrKeyTooShort)
+            fns = ["identity"] + fns[:1]
+            datas = ["d4", "d5", "d6"]
         ops = []
         for _ in range(depth):
             r = rng.random(); x = rng.random() < 0.15
@@ -101,7 +107,7 @@ def run(pid):
     rep.cov["distinct_nontrivial"] = total + n
     rep.cov["rule"] = ("one history per reachable TRANSITION of Blockstore.tla (all CIDs v0/v1 x raw/dag-pb over the configured hash functions, matching and "
                        "mismatching bytes, live and cancelled contexts, Put/PutMany/Get/Has/GetSize/DeleteBlock/HashOnRead) replayed on a real HashedBlockstore, "
-                       "plus seeded random histories over 4 hash functions, 3 codecs and 4 block sizes (0 B .. 1 KiB); distinct by op sequence")
+                       "plus seeded random histories over 5 hash functions (incl. identity digests that share bucket and stored prefix), 3 codecs and 7 block sizes (0 B .. 1 KiB); distinct by op sequence")
     rep.assumptions = ["TLC + Json module", "block sizes are pairwise distinct so GetSize identifies the stored bytes"]
     return rep.finish()
 
